@@ -6,7 +6,7 @@ Facts about the two interpretations of the AlgIR signature:
    regenerated one (a reordering of the generated table is caught here);
 2. `rfl`-lemmas unfolding each operation of `zmodOps` (for `simp only [zmodOps_simps …]`);
 3. `natOps_rel_zmodOps`: the executable interpretation over canonical naturals computes the casts
-   of the `Fp` interpretation (`FOps.Rel`), hence (`run_natOps_cast`) every translated program run
+   of the `Fp` interpretation (`FOps.Rel`), hence (`run_natOps_eq_val`) every translated program run
    by the model executable on canonical naturals returns the canonical representatives of the `Fp` run.
 -/
 import Dalek.Proofs.AlgZMod
